@@ -231,3 +231,93 @@ Definition exU : store :=
 Definition agree (DU : store * store) : bool :=
   views_eqb (canon id_dev (filter (fun v => negb (bytes_eqb (v_down v) id_ur)) (project (fst DU))))
             (canon id_dev (filter (fun v => negb (bytes_eqb (v_down v) id_ur)) (project (snd DU)))).
+
+(* ---------- the exchange at the level of the two stores ---------- *)
+Definition no_nan (ps : list point) : Prop := Forall (fun p => f64_is_nan (p_val p) = false) ps.
+
+Lemma wr_node_single st id p : f64_is_nan (p_val p) = false -> key_ok p -> nodes_ok st ->
+  node_rows (s_nodes (wr st (NodePts id [p]))) id = ins (node_rows (s_nodes st) id) p /\
+  (forall id', id' <> id -> node_rows (s_nodes (wr st (NodePts id [p]))) id' = node_rows (s_nodes st) id') /\
+  nodes_ok (wr st (NodePts id [p])).
+Proof.
+  intros Hn Hk HO. unfold wr. cbn [handle].
+  destruct (node_points st id [p]) as [st'|e] eqn:E.
+  - cbn [fst]. destruct (node_points_nodes_ok st id [p] st' HO E) as (H1 & H2 & H3).
+    split; [|split; assumption]. rewrite H1. unfold batch_rows. rewrite merge_batch_ins by apply HO.
+    cbn [collapse map fold_left]. rewrite (normp_id p Hk). reflexivity.
+  - exfalso. unfold node_points in E. cbn [has_nan existsb] in E. rewrite Hn in E. cbn [orb] in E.
+    destruct (merge_batch false _ _). discriminate.
+Qed.
+
+Lemma apply_node_sends_rows sends : forall D U id,
+  nodes_ok D -> nodes_ok U ->
+  Forall (fun s => f64_is_nan (p_val (snd s)) = false /\ key_ok (snd s)) sends ->
+  let DU := apply_node_sends D U id id sends in
+  node_rows (s_nodes (fst DU)) id = recv_local (node_rows (s_nodes D) id) sends /\
+  node_rows (s_nodes (snd DU)) id = recv_remote (node_rows (s_nodes U) id) sends /\
+  (forall id', id' <> id -> node_rows (s_nodes (fst DU)) id' = node_rows (s_nodes D) id' /\
+                            node_rows (s_nodes (snd DU)) id' = node_rows (s_nodes U) id').
+Proof.
+  induction sends as [|[up p] sends IH]; intros D U id HD HU Hs; cbv zeta.
+  - cbn. auto.
+  - inversion Hs as [|? ? [Hn Hk] Hs']; subst. cbn [snd] in Hn, Hk.
+    unfold apply_node_sends. cbn [fold_left]. fold (apply_node_sends).
+    destruct up.
+    + destruct (wr_node_single U id p Hn Hk HU) as (H1 & H2 & H3).
+      change (fold_left _ sends (D, wr U (NodePts id [p]))) with (apply_node_sends D (wr U (NodePts id [p])) id id sends).
+      destruct (IH D (wr U (NodePts id [p])) id HD H3 Hs') as (A & B & C). cbv zeta in A, B, C.
+      split; [|split].
+      * rewrite A. unfold recv_local. cbn [filter fst negb]. reflexivity.
+      * rewrite B, H1. unfold recv_remote. cbn [filter fst map snd fold_left]. reflexivity.
+      * intros id' Hne. destruct (C id' Hne) as [C1 C2]. split; [exact C1|]. rewrite C2. apply H2. exact Hne.
+    + destruct (wr_node_single D id p Hn Hk HD) as (H1 & H2 & H3).
+      change (fold_left _ sends (wr D (NodePts id [p]), U)) with (apply_node_sends (wr D (NodePts id [p])) U id id sends).
+      destruct (IH (wr D (NodePts id [p])) U id H3 HU Hs') as (A & B & C). cbv zeta in A, B, C.
+      split; [|split].
+      * rewrite A, H1. unfold recv_local. cbn [filter fst negb map snd fold_left]. reflexivity.
+      * rewrite B. unfold recv_remote. cbn [filter fst]. reflexivity.
+      * intros id' Hne. destruct (C id' Hne) as [C1 C2]. split; [|exact C2]. rewrite C1. apply H2. exact Hne.
+Qed.
+
+Lemma sync_points_from L R s : In s (sync_points L R) -> In (snd s) L \/ In (snd s) R.
+Proof.
+  unfold sync_points. intros H. apply in_app_or in H as [H|H].
+  - apply in_flat_map in H as (p & Hp & H). unfold cmp_local in H.
+    destruct (filter (is_match p) R) as [|q ms] eqn:E.
+    + destruct H as [<-|[]]. left. exact Hp.
+    + apply in_flat_map in H as (x & Hx & H).
+      assert (In x R) by (assert (In x (filter (is_match p) R)) by (rewrite E; exact Hx); apply filter_In in H0; tauto).
+      destruct (p_time x <? p_time p); [destruct H as [<-|[]]; left; exact Hp|].
+      destruct (p_time p <? p_time x); [destruct H as [<-|[]]; right; exact H0|destruct H].
+  - apply in_map_iff in H as (q & <- & Hq). apply filter_In in Hq. right. tauto.
+Qed.
+
+(* C02, one node of the shared tree: after the node-point exchange of a catch-up pass both
+   instances hold, for every identity of that node, the newer of the two points they held, and no
+   other node's points were touched *)
+Theorem node_exchange_store D U id t k :
+  nodes_ok D -> nodes_ok U ->
+  no_nan (node_rows (s_nodes D) id) -> no_nan (node_rows (s_nodes U) id) ->
+  (forall t k a b, lookup (node_rows (s_nodes D) id) t k = Some a -> lookup (node_rows (s_nodes U) id) t k = Some b ->
+                   p_time a = p_time b -> a = b) ->
+  let L := node_rows (s_nodes D) id in let R := node_rows (s_nodes U) id in
+  let DU := apply_node_sends D U id id (sync_points L R) in
+  lookup (node_rows (s_nodes (fst DU)) id) t k = join (lookup L t k) (lookup R t k) /\
+  lookup (node_rows (s_nodes (snd DU)) id) t k = join (lookup L t k) (lookup R t k) /\
+  (forall id', id' <> id -> node_rows (s_nodes (fst DU)) id' = node_rows (s_nodes D) id' /\
+                            node_rows (s_nodes (snd DU)) id' = node_rows (s_nodes U) id').
+Proof.
+  intros HD HU ND NU Hties. cbv zeta.
+  assert (Hs : Forall (fun s => f64_is_nan (p_val (snd s)) = false /\ key_ok (snd s))
+                      (sync_points (node_rows (s_nodes D) id) (node_rows (s_nodes U) id))).
+  { apply Forall_forall. intros s Hin. apply sync_points_from in Hin as [Hin|Hin].
+    - split; [unfold no_nan in ND; rewrite Forall_forall in ND; apply ND; exact Hin|].
+      destruct (HD id) as [Hk _]. unfold keys_norm in Hk. rewrite Forall_forall in Hk. apply Hk. exact Hin.
+    - split; [unfold no_nan in NU; rewrite Forall_forall in NU; apply NU; exact Hin|].
+      destruct (HU id) as [Hk _]. unfold keys_norm in Hk. rewrite Forall_forall in Hk. apply Hk. exact Hin. }
+  destruct (apply_node_sends_rows _ D U id HD HU Hs) as (A & B & C). cbv zeta in A, B, C.
+  rewrite A, B.
+  destruct (exchange_join (node_rows (s_nodes D) id) (node_rows (s_nodes U) id)
+              (proj1 (HD id)) (proj1 (HU id)) (proj2 (HD id)) (proj2 (HU id)) Hties t k) as [E1 E2].
+  cbv zeta in E1, E2. split; [exact E1|]. split; [exact E2|exact C].
+Qed.
